@@ -11,9 +11,13 @@ REG = dict(
         "5e-5) are numerical facts, NOT theorems (the two noiseless-regime bounds 0.4*c*o/(b-a) and 0.83*sqrt(o/(b-a)) ARE theorems): they are "
         "decided on every run by the Float model <-> numpy correspondence (against drift) and by an mpmath quadrature of two "
         "algebraically different convolution integrals (against the Spec)",
-        "the Spec is taken in its mixture form H(t) = int_0^1 Phi((t-x)/s) d(x^(c/2)) (law of Z+E after conditioning on Z; the "
-        "independence/Fubini step to it is not formalised); from there the convolution identity H = Phi(point) + int_0^1 x^(c/2) dN "
-        "IS proved for every c >= 1",
+        "the Spec is P[Z+E <= y] itself: the theorems are stated with its mixture form H(t) = int_0^1 Phi((t-x)/s) d(x^(c/2)) (law "
+        "of Z+E after conditioning on Z), and the step to it IS a theorem (OpdaProofs/NoisyLaw.lean: independence => convolution, "
+        "Tonelli, N(0,o^2)(-inf,x] = Phi(x/o), the law of Z as the image of uniform[0,1) under the quadratic part of a draw - with "
+        "the noise-free class's cdf as its distribution function - and the substitution x = u^(2/c), for every a<b, c>=1, o>0, both "
+        "shapes, every real y; likewise the mixture density is the Lebesgue density of the law of Z+E); from there the convolution "
+        "identity H = Phi(point) + int_0^1 x^(c/2) dN is proved for every c >= 1. What remains a reading of the property, not a "
+        "theorem: that 'Z ~ Quadratic(a,b,c,shape)' means the law with the class's own cdf (C05's model) and that Z, E are independent",
         "not proved: the accuracy of the Chebyshev fallback, of the downward step for k=-1/2 and of the normal regime, "
         "Phi(+-inf) in {0,1} at Float (both noiseless-regime constants are proved: 0.4*c*o/(b-a) for c>=2 by the Lipschitz "
         "constant times E|E|, 0.83*sqrt(o/(b-a)) for c=1 by Hoelder-1/2 times E sqrt|E| = (2o^2)^(1/4) Gamma(3/4)/sqrt(pi), "
@@ -47,7 +51,13 @@ TEXT = dict(
           "every hypothesis on the pieces): for every odd c in {1,3,5,7,9}, both shapes, every scale of the series regime and "
           "EVERY real y, |cdf - Spec| <= 1.02*max_error of the entry the scale o/(b-a) selects (uniform form: of the row), and "
           "for odd c in {3,..,9} |(b-a)*pdf - density| <= (c/2)*1.02*max_error of the selected entry of row c-2; for c in {7,9} "
-          "this IS the property's 2.5e-5 (cdf) and for c=9 its 1e-4 (pdf), in exact real arithmetic; in the noiseless regime the returned noise-free law is within 0.4*c*o/(b-a) (c>=2) resp. 0.83*sqrt(o/(b-a)) (c=1, both shapes, every real y) of its convolution with the "
+          "this IS the property's 2.5e-5 (cdf) and for c=9 its 1e-4 (pdf), in exact real arithmetic; THE SPEC IS THE LAW OF THE SUM: "
+          "for any independent Z ~ Quadratic(a,b,c,shape) (image of uniform[0,1) under the quadratic part of a draw; its distribution "
+          "function is the noise-free class's cdf) and E ~ N(0,o^2) on any probability space, P[Z+E <= y] = H((y-a)/(b-a)) resp. "
+          "1 - H((b-y)/(b-a)) (spec_is_law_of_sum: independence => convolution, Tonelli, Gaussian scaling, substitution x = u^(2/c); "
+          "every a<b, c>=1, o>0, every real y), and the law of Z+E has Lebesgue density (mixture density)/(b-a); so for even c the "
+          "model's cdf IS P[Z+E <= y] and its pdf IS a density of that law, for c in {7,9} |cdf - P[Z+E <= y]| <= 2.5e-5, and the "
+          "noiseless-regime bounds are bounds on |cdf - P[Z+E <= y]|; in the noiseless regime the returned noise-free law is within 0.4*c*o/(b-a) (c>=2) resp. 0.83*sqrt(o/(b-a)) (c=1, both shapes, every real y) of its convolution with the "
           "noise - both constants of the property. The model is tied to the code on every run (Float, jitter-calibrated allowance, both sides of "
           "every switch point) and the property's own thresholds are evaluated against an mpmath convolution oracle.",
     note="Partial: the 2.5e-5 / 1e-4 / 0.2 / 5e-5 figures are numerical facts decided by "
